@@ -16,19 +16,16 @@ def run(ctx):
     ctx.assumptions += ["regular expressions restricted to the family of specs/Strings.tla", "requests driven in-process through mux.ServeHTTP, one at a time",
                         "the ARC replacement policy is abstracted to 'any entry may disappear at any time'",
                         "client address unambiguous (RemoteAddr, or a single public X-Forwarded-For / X-Real-IP value)"]
-    if ctx.phase("mc"):
-        _mc(ctx)
-    if ctx.phase("mbt"):
-        _mbt(ctx)
-    if ctx.phase("tv"):
-        _tv(ctx)
+    R.run_phases(ctx, (("mc", _mc), ("mbt", _mbt), ("tv", _tv)))
 
 
 def _mc(ctx):
     runs = [("C12InitQuick", "C12ReqsA")] if ctx.quick else [("C12InitFull", "C12ReqsA"), ("C12InitQuick", "C12Reqs")]
-    for uni, reqs in runs:
-        r = ctx.tlc_mc("HttpRouter_MC", R.mc_cfg(uni, reqs, 2, True, "Transparent", variant=R.REPAIRED),
-                       label="Transparent, repaired cache design, %s x %s, 2 requests + evictions" % (uni, reqs), timeout=2400)
+    # entries with rewrite targets and requests for the rewritten URLs: three requests (store, revisit, revisit again)
+    runs.append(("C12InitRw", "C12RwReqsMC", 3))
+    for uni, reqs, depth in [(x + (2,))[:3] for x in runs]:
+        r = ctx.tlc_mc("HttpRouter_MC", R.mc_cfg(uni, reqs, depth, True, "Transparent", variant=R.REPAIRED),
+                       label="Transparent, repaired cache design, %s x %s, %d requests + evictions" % (uni, reqs, depth), timeout=2400)
         ctx.log("Transparent holds for the repaired design (%s x %s): %d transitions" % (uni, reqs, r.generated))
     # the cache as the pinned tree has it: TLC is expected to refute Transparent (a lead, confirmed or not by the replay below)
     r = ctx.tlc_mc("HttpRouter_MC", R.mc_cfg("C12InitQuick", "C12ReqsA", 2, True, "Transparent", variant=R.PINNED),
@@ -72,20 +69,40 @@ def R_same(a, b):
     return a.get("code") == b.get("code") and a.get("be") == b.get("be") and R.chars(a.get("path")) == R.chars(b.get("path"))
 
 
+def _revisits(steps):
+    """number of requests of a history (None = cache emptied) whose host, method and path are those an earlier request
+    was dispatched with after rewriting (the earlier request asked for another path)"""
+    seen, n = set(), 0
+    for st in steps:
+        if st is None:
+            seen = set()
+            continue
+        q, o = st
+        if (R.chars(q["host"]), R.chars(q["m"]), R.chars(q["path"])) in seen:
+            n += 1
+        if o.get("code") == 0 and R.chars(o.get("path")) != R.chars(q["path"]):
+            seen.add((R.chars(q["host"]), R.chars(q["m"]), R.chars(o["path"])))
+    return n
+
+
 def _mbt(ctx):
-    nb = 1200 if ctx.quick else 10000
+    nb = 1500 if ctx.quick else 12000
     depth = 30 if ctx.quick else 40
     nreq = 7 if ctx.quick else 10
     behs = []
     # the general universe, and focused ones (a header-conditioned entry ahead of a plain one; a filtered rule ahead of
     # the owning rule; sibling filters; method-restricted entries ahead of unrestricted ones for the same URL with requests
-    # that differ in the method only), so that every history shape the cache is sensitive to occurs often
+    # that differ in the method only; entries with rewrite targets and requests for the rewritten URLs; one entry reached
+    # from two hosts by different ways, one of them through a filtered rule), so that every history shape the cache is
+    # sensitive to occurs often
     for k, (share, reqs, templates, shells, sfs, plans) in enumerate((
-            (0.2, "C12SimReqs", "C12SimTemplates", "C12SimShells", "C12SimServerFilters", "PlansC12"),
-            (0.2, "C12ReqsA", "C12HdrFocus", "C12FocusShells", "C12NoServerFilter", "PlansHdrFocus"),
-            (0.2, "C12ReqsA", "C12RuleFocus", "C12FocusShells", "C12NoServerFilter", "PlansRuleFocus"),
-            (0.15, "C05FocusReqs", "C12FilterFocus", "C05FocusShells", "C12SimServerFilters", "PlansFilterFocus"),
-            (0.25, "C12MethReqs", "C12MethFocus", "C12FocusShells", "C12NoServerFilter", "PlansMethFocus"))):
+            (0.16, "C12SimReqs", "C12SimTemplates", "C12SimShells", "C12SimServerFilters", "PlansC12"),
+            (0.16, "C12ReqsA", "C12HdrFocus", "C12FocusShells", "C12NoServerFilter", "PlansHdrFocus"),
+            (0.16, "C12ReqsA", "C12RuleFocus", "C12FocusShells", "C12NoServerFilter", "PlansRuleFocus"),
+            (0.12, "C05FocusReqs", "C12FilterFocus", "C05FocusShells", "C12SimServerFilters", "PlansFilterFocus"),
+            (0.18, "C12MethReqs", "C12MethFocus", "C12FocusShells", "C12NoServerFilter", "PlansMethFocus"),
+            (0.14, "C12RwReqs", "C12RwFocus", "C12FocusShells", "C12NoServerFilter", "PlansRwFocus"),
+            (0.08, "C12ShareReqs", "C12ShareFocus", "C12ShareShells", "C12NoServerFilter", "PlansShareFocus"))):
         behs += ctx.tlc_simulate("HttpRouter_Gen", R.gen_cfg(reqs, nreq, True, templates, shells, sfs, plans),
                                  num=int(nb * share), depth=depth, timeout=1200, seed=ctx.seed * 10 + k)
     behs = [b for b in behs if b and b[0].get("a") == "cfg" and len(b) > 1]
@@ -101,6 +118,10 @@ def _mbt(ctx):
     ctx.notes.append({"tlc_leads_by_class": leads})
     if any(leads.get(c, 0) == 0 for c in CLASSES):
         ctx.inconclusive("C12: generated behaviours do not cover every cache-divergence class of the pinned design: %s" % leads)
+    revisits = sum(_revisits(((s["q"], s["exp"]) if s.get("a") == "req" else None) for s in b[1:]) for b in behs)
+    ctx.notes.append({"replay_requests_for_an_earlier_rewritten_url": revisits})
+    if revisits < 25:
+        ctx.inconclusive("C12: only %d generated requests ask for the URL an earlier request was rewritten to" % revisits)
     inp = ctx.path("c12_behs.ndjson")
     with open(inp, "w") as fh:
         for b in behs:
@@ -166,9 +187,15 @@ def _tv(ctx):
         seen.add(t)
         kinds[R.kind(e["ou"])] = kinds.get(R.kind(e["ou"]), 0) + 1
     ratio = rep / max(1, reqs)
-    ctx.notes.append({"tv_requests": reqs, "tv_repeat_ratio": round(ratio, 3), "tv_outcomes": kinds})
+    revisits = _revisits((None if e["ev"] == "cfg" else (e["q"], e["ou"])) for e in ev)
+    ctx.notes.append({"tv_requests": reqs, "tv_repeat_ratio": round(ratio, 3), "tv_outcomes": kinds,
+                      "tv_requests_for_an_earlier_rewritten_url": revisits})
+    # (these counts come from the real code: they are looked at after the trace has been judged)
+    vacuous = None
+    if revisits < ncfgs // 8:
+        vacuous = "C12 trace is vacuous: only %d of %d requests ask for the URL an earlier request was rewritten to" % (revisits, reqs)
     if ratio < 0.2 or kinds.get("backend", 0) == 0 or kinds.get("403", 0) == 0 or kinds.get("404", 0) == 0:
-        ctx.inconclusive("C12 trace is vacuous: repeat ratio %.2f, outcomes %s" % (ratio, kinds))
+        vacuous = "C12 trace is vacuous: repeat ratio %.2f, outcomes %s" % (ratio, kinds)
     bad = R.validate_chunks(ctx, ev, "c12_tv", chunk=2000 if ctx.quick else 6000)
     ctx.evals(reqs)
     ctx.traces(ncfgs)
@@ -189,3 +216,5 @@ def _tv(ctx):
     if model:
         ctx.inconclusive("C12: the cache-less real mux departs from the reference semantics on %d recorded requests "
                          "(a C01/C05 matter; C12 cannot be judged against this model)" % model)
+    if vacuous:
+        ctx.inconclusive(vacuous)
